@@ -992,7 +992,9 @@ func (c *Conn) handleBdat(arg string) {
 		c.writeResponse(552, EnhancedCode{5, 3, 4}, "Max message size exceeded")
 
 		// Discard chunk itself without passing it to backend.
+		c.lineLimitReader.LineLimit = 0
 		io.Copy(ioutil.Discard, io.LimitReader(c.text.R, int64(size)))
+		c.lineLimitReader.LineLimit = c.server.MaxLineLength
 
 		c.reset()
 		return
